@@ -196,6 +196,24 @@ func c05Dispatch(c *Ctx, p *Prog) {
 			}
 		}
 		c.Check(okNil, R, fnName(fn)+":absent-is-empty", p.pos(fn.Pos()), "an absent configuration key yields the empty value", "an absent configuration key does not yield the empty value")
+		// a plain key is the configured value of that key: what is returned for a present key is the stored value itself
+		verbatim, nVal := true, 0
+		for _, b := range fn.Blocks {
+			ret, ok := b.Instrs[len(b.Instrs)-1].(*ssa.Return)
+			if !ok {
+				continue
+			}
+			v := retVal(ret, 0)
+			if k, ok := v.(*ssa.Const); ok && k.IsNil() {
+				continue
+			}
+			nVal++
+			f, _ := loadOfField(v)
+			if f == nil || f.Name() != "Value" {
+				verbatim = false
+			}
+		}
+		c.Check(verbatim && nVal > 0, R, fnName(fn)+":value-verbatim", p.pos(fn.Pos()), "a present key yields the stored value itself", "for a present key the configuration extractor returns something computed from the stored value (trimmed, sliced, converted) rather than the value itself: values that differ only in what was cut off fall into one group, and a value made only of the cut characters reads as absent")
 	}
 }
 
